@@ -44,6 +44,31 @@ def find(pattern, text, what):
     return m
 
 
+def num_or_const(tok, text, what):
+    """A literal, or the name of a `const`/`static` item of the same file holding one."""
+    tok = tok.strip()
+    if re.fullmatch(r"[\d_]+", tok):
+        return int(tok.replace("_", ""))
+    if re.fullmatch(r"0x[0-9a-fA-F_]+", tok):
+        return int(tok.replace("_", ""), 16)
+    m = re.search(r"\b(?:const|static)\s+" + re.escape(tok) + r"\s*:\s*\w+\s*=\s*([^;]+);", text)
+    if not m:
+        raise Broken(f"cannot resolve {tok} in {what}")
+    return num_or_const(m.group(1).split(" as ")[0], text, what)
+
+
+FAILED = []
+
+
+def attempt(c, names, f):
+    """Extracts one group of constants; on failure keeps the values of the last generated file
+    (so that the library still builds) and records which constants are no longer tied."""
+    try:
+        f()
+    except Broken as e:
+        FAILED.append({"constants": names, "why": str(e)})
+
+
 def extract():
     c = {}
     consts = read("src/common/concurrent/constants.rs")
@@ -65,10 +90,14 @@ def extract():
     c["RESET_MASK"] = int(find(r"static RESET_MASK: u64 = (0x[0-9a-f_]+);", fs, "RESET_MASK").group(1).replace("_", ""), 16)
     c["ONE_MASK"] = int(find(r"static ONE_MASK: u64 = (0x[0-9a-f_]+);", fs, "ONE_MASK").group(1).replace("_", ""), 16)
     # ensure_capacity: cap.min(2u32.pow(30)) on 64-bit, saturating_mul(10), `10` for cap == 0
-    c["SKETCH_MAX_TABLE_POW"] = int(find(r"\} else \{[^}]*?cap\.min\(2u32\.pow\((\d+)\)\)[^}]*\};\s*let table_size", fs, "ensure_capacity 64-bit clamp").group(1))
-    m = find(r"self\.sample_size = if cap == 0 \{\s*(\d+)\s*\} else \{\s*maximum\.saturating_mul\((\d+)\)\.min\(i32::MAX as u32\)\s*\};", fs, "sample_size expression")
-    c["SKETCH_ZERO_CAP_SAMPLE"] = int(m.group(1))
-    c["SKETCH_SAMPLE_FACTOR"] = int(m.group(2))
+    def table_pow():
+        c["SKETCH_MAX_TABLE_POW"] = num_or_const(find(r"\} else \{[^}]*?cap\.min\(2u32\.pow\((\w+)\)\)[^}]*\};\s*let table_size", fs, "ensure_capacity 64-bit clamp").group(1), fs, "ensure_capacity")
+    attempt(c, ["SKETCH_MAX_TABLE_POW"], table_pow)
+    def sample():
+        m = find(r"self\.sample_size = if cap == 0 \{\s*(\w+)\s*\} else \{\s*maximum\s*\.saturating_mul\((\w+)\)\s*\.min\(i32::MAX as u32\)\s*\};", fs, "sample_size expression")
+        c["SKETCH_ZERO_CAP_SAMPLE"] = num_or_const(m.group(1), fs, "sample_size")
+        c["SKETCH_SAMPLE_FACTOR"] = num_or_const(m.group(2), fs, "sample_size")
+    attempt(c, ["SKETCH_ZERO_CAP_SAMPLE", "SKETCH_SAMPLE_FACTOR"], sample)
     cm = read("src/common.rs")
     c["SKETCH_MIN_CAPACITY"] = int(find(r"max_capacity\.try_into\(\)\.unwrap_or\(u32::MAX\)\.max\((\d+)\)", cm, "sketch_capacity clamp").group(1))
     bu = read("src/common/builder_utils.rs")
@@ -113,15 +142,23 @@ def main():
     except Broken as e:
         print(f"extract_consts: BROKEN TIE: {e}", file=sys.stderr)
         return 2
-    text = render(c)
     out = os.path.normpath(OUT)
     old = open(out).read() if os.path.exists(out) else None
+    for f in FAILED:
+        for name in f["constants"]:
+            m = re.search(r"^def " + name + r" : Nat := (\S+)$", old or "", re.M)
+            if name not in c:
+                if not m:
+                    print(f"extract_consts: BROKEN TIE: {f['why']}", file=sys.stderr)
+                    return 2
+                c[name] = int(m.group(1), 0)
+    text = render(c)
     changed = old != text
     if changed:
         with open(out, "w") as f:
             f.write(text)
     import json
-    print(json.dumps({"changed": changed, "constants": c}))
+    print(json.dumps({"changed": changed, "constants": c, "untied": FAILED}))
     return 0
 
 
